@@ -2,6 +2,9 @@ package vc
 
 import (
 	"fmt"
+	"regexp"
+
+	"golang.org/x/tools/go/ssa"
 	"go/types"
 	"sort"
 	"strings"
@@ -17,6 +20,7 @@ type Val struct {
 	FBase Term       // when the pointer is the address of a struct field: address of the struct,
 	FStruct types.Type //   the struct type
 	FIdx  int        //   and the field index
+	Dyn   *Val       // for interface values built by MakeInterface from a pointer: that pointer
 	DynTyp types.Type // for interface values built by MakeInterface: the static type of the operand
 	Lazy  types.Type // contract name of a captured variable: the value is loaded from T when used
 	ConstLen int // for slices of a fresh fixed-size array: length+1
@@ -117,6 +121,8 @@ type Unit struct {
 	witnesses []idxAt // skolem constants of assumed existentials
 	idxTerms []idxAt
 	elemComps map[string]bool
+	curLoopBody map[*ssa.BasicBlock]bool
+	localWrites []localWrite
 	repoCallees map[string]bool // contracts of /repo functions and interfaces assumed at call sites
 }
 
@@ -243,7 +249,7 @@ func (u *Unit) compSortOf(name string) string {
 		s = "(Array Ref (Array Str " + name[3:] + "))"
 	case strings.HasPrefix(name, "GM_"):
 		g := u.P.CS.GhostMaps[name[3:]]
-		s = "(Array " + g.Struct + " " + g.Sort + ")"
+		s = "(Array " + g.Struct + " " + u.ghostSort(g.Sort) + ")"
 	case strings.HasPrefix(name, "held"):
 		s = "(Array Ref Int)"
 	default:
@@ -721,7 +727,7 @@ func SafeName(s string) string {
 
 // isGhostTrace reports whether a component belongs to the ghost event trace (never havocked with the heap).
 func isGhostTrace(name string) bool {
-	return name == "clock" || strings.HasPrefix(name, "cnt_") || strings.HasPrefix(name, "arg_") || strings.HasPrefix(name, "at_")
+	return name == "clock" || strings.HasPrefix(name, "cnt_") || strings.HasPrefix(name, "arg_") || strings.HasPrefix(name, "at_") || strings.HasPrefix(name, "GM_")
 }
 
 func (u *Unit) RepoCallees() []string { return sortedKeys(u.repoCallees) }
@@ -736,4 +742,17 @@ func ScanObligation(name, src string, ok bool, detail string) *Obligation {
 		o.Goal = "false"
 	}
 	return o
+}
+
+var goTypeInSort = regexp.MustCompile(`[a-z]+\.[A-Z][A-Za-z]*`)
+
+// ghostSort resolves Go type names (pkg.Type) inside a ghost sort to the SMT sort of that type.
+func (u *Unit) ghostSort(s string) string {
+	return goTypeInSort.ReplaceAllStringFunc(s, func(m string) string {
+		k := strings.Index(m, ".")
+		if t := u.P.lookupType(nil, m[:k], m[k+1:]); t != nil {
+			return u.sorts.sortOf(t)
+		}
+		return m
+	})
 }
